@@ -260,8 +260,8 @@ int main(void) {
             } else { printf(e == ENOMEM ? "enomem " : "done "); state(); }
         } else if (!strcmp(op, "walk")) {
             qtreetbl_obj_t o; memset(&o, 0, sizeof(o));
-            size_t n = 0, cap2 = 1 << 16; char *buf = malloc(cap2); size_t bl = 0;
-            FILE *mem = fmemopen(buf, cap2, "w");
+            size_t n = 0; char *buf = NULL; size_t bl = 0;
+            FILE *mem = open_memstream(&buf, &bl);      /* grows with the values (no truncation) */
             size_t limit = tbl->num + 3;
             while (tbl->getnext(tbl, &o, true)) {
                 fprintf(mem, " "); puthex(mem, o.name, o.namesize); fprintf(mem, "=");
@@ -269,7 +269,7 @@ int main(void) {
                 vf_free(o.name); vf_free(o.data);
                 if (++n >= limit) break;      /* runaway walk: reported through the count */
             }
-            fflush(mem); bl = ftell(mem); fclose(mem);
+            fclose(mem);
             if (n >= limit) { printf("fault outOfFuel"); free(buf); }
             else { printf("walk %zu%.*s | ", n, (int) bl, buf); free(buf); state(); }
         } else if (!strcmp(op, "near") && nw == 2) {
